@@ -4,6 +4,7 @@ import PyXABModel.Drv.Sweep
 import PyXABModel.Drv.Meta
 import PyXABModel.Drv.Zooming
 import PyXABModel.Drv.VROOM
+import PyXABModel.Generated.ObjectivesFloat
 namespace PyXAB.Drv
 
 inductive DState where
@@ -108,12 +109,24 @@ def algoStep (st : DState) (cmd : String) (args : List String) : DState × Strin
   | _, .hct d => let (d', o) := hctStep d cmd args; (.hct d', o)
   | _, _ => (st, "bad-op no-state")
 
+/-- `O.eval <class> <np> params… <nx> coords…` : evaluate the translated objective at Float -/
+def objStep (args : List String) : String :=
+  match (do let name ← tok; let np ← nat; let ps ← rep np flt; let nx ← nat; let xs ← rep nx flt
+            pure (name, ps, xs) : Rd _).run' args with
+  | .ok (name, ps, xs) =>
+    match ObjF.evalObj name ps xs with
+    | some (.ok v) => s!"ok {fbits v}"
+    | some (.error e) => s!"ERR {errName e}"
+    | none => "bad-op unknown-objective"
+  | .error e => s!"bad-op {e}"
+
 def step (st : DState) (line : String) : DState × String :=
   match (line.trimAscii.toString.splitOn " ").filter (· ≠ "") with
   | [] => (st, "")
   | "case" :: rest => (.none, "case " ++ " ".intercalate rest)
   | cmd :: args =>
-    if cmd.startsWith "P." then partStep st cmd args else algoStep st cmd args
+    if cmd == "O.eval" then (st, objStep args)
+    else if cmd.startsWith "P." then partStep st cmd args else algoStep st cmd args
 
 partial def loop (h : IO.FS.Stream) (out : IO.FS.Stream) (st : DState) : IO Unit := do
   let line ← h.getLine
